@@ -29,6 +29,7 @@ RTOL_READOUT = 1e-12      # stored value vs BASIC read-out of the same simulatio
 RTOL_MIX = 1e-12          # *_MIX: linear combination of two stored numbers
 RTOL_INVENTORY = 1e-6     # USE reads the current content: coarse element inventory (fine conservation is C02)
 RTOL_EQUIV = 1e-12
+ATOL_EQUIV = 1e-24        # mol: less than one atom
 RTOL_DEF, ATOL_DEF = 1e-6, 1e-9   # SOLUTION definition vs the same definition in a fresh instance (iterative result)        # RUN_CELLS / one-simulation combination vs the spelled-out sequence
 
 
@@ -405,7 +406,11 @@ def judge(op, before, meta_b, after, meta_a, comps, res, exp, problems, diags):
                 P("failed-operation-changed-store op=%s kinds=%s" % (oc, ",".join(ch)), "the operation failed (%s) but the store changed" % first_error(res["err"]))
         return
     if failed and not exp["error_allowed"]:
-        P("unexpected-error op=%s msg=%s" % (oc, first_error(res["err"])), "every entity the operation reads is in the store, yet the run failed:\n%s" % res["err"][:400])
+        if "not found" in res["err"].lower():
+            P("entity-in-store-not-found op=%s msg=%s" % (oc, first_error(res["err"])), "every entity the operation reads is in the store, yet the run failed:\n%s" % res["err"][:400])
+        else:
+            # numerical failure (e.g. reacting the empty solution a SOLUTION_MIX of missing solutions leaves): not judged (R2)
+            diags.append("not completed (%s): %s" % (first_error(res["err"])[:40], name))
         return
     # ---- key set
     if exp["keys"] is not None and set(after) != exp["keys"]:
@@ -555,12 +560,14 @@ def check_inventory(op, before, after, P):
 
 
 def check_components(store, comps, oc, P):
-    need = set()
+    need = {}
     for k, body in store.items():
-        need |= elements_of(k[0], body)
-    missing = sorted(need - set(comps))
+        for e in elements_of(k[0], body):
+            need.setdefault(e, set()).add(k[0])
+    missing = sorted(set(need) - set(comps))
     if missing:
-        P("component-list-misses-element after=%s" % oc.split(":")[0], "GetComponent list %s lacks %s, present in a defined reactant" % (comps, missing))
+        src = sorted(set.union(*[need[e] for e in missing]))
+        P("component-list-misses-element held-by=%s" % ",".join(src), "GetComponent list %s lacks %s, present in defined reactants of kind %s (after %s)" % (comps, missing, src, oc))
 
 
 # ------------------------------------------------------------------------------------------------ stepping
@@ -581,7 +588,10 @@ def equivalent_store(live, store, seq, stop_after=None):
         for so in expand_op(o, cur):
             if live.run(S.op_text(so))["rc"] != 0:
                 failed += 1
-        cur = live.observe()[0]
+        try:
+            cur = live.observe()[0]
+        except Unobservable:
+            return cur, cur, failed + 1
     if stop_after is not None and stop_after >= len(seq):
         mid = cur if seq else live.observe()[0]
     return cur, mid, failed
@@ -595,6 +605,10 @@ def expand_op(o, store):
     st = set(store)
     for n in S.numbers(o["list"]):
         if n < 0:
+            continue
+        if S.solution_only(st, n):
+            # no reactant: USE/SAVE alone is no calculation; the single-cell RUN_CELLS stands for itself
+            out.append(RC(str(n)))
             continue
         r = S.spelled_out(st, n)
         if r is not None:
@@ -620,7 +634,7 @@ def compare_stores(a, b, oc, what, P, rtol):
             what, sorted(set(a) - set(b)), sorted(set(b) - set(a))))
         return
     for k in sorted(a):
-        dd = S.numeric_diff(a[k], b[k], rtol, 0.0)
+        dd = S.numeric_diff(a[k], b[k], rtol, ATOL_EQUIV)
         if dd:
             P("equivalence-content op=%s kind=%s" % (oc, k[0]), "%s: entry %s differs: %s" % (what, k, dd))
             break
@@ -663,19 +677,11 @@ def step(live, op, store, meta, problems, diags):
 
         def P(fp, what):
             problems.append((fp, "%s\n  operation: %s" % (what, name)))
-        solo = []
-        for so in ([op] if o == "run_cells" else op["pre"] + op["post"]):
-            if so["op"] == "run_cells":
-                solo += [n for n in S.numbers(so["list"]) if n >= 0 and S.solution_only(set(store), n)]
-        if solo and (o == "combo" or res["rc"] != 0):
-            diags.append("not judged (a listed cell holds only a solution: RUN_CELLS re-speciates it, USE/SAVE alone is no calculation): %s" % name)
-        elif (res["rc"] != 0) != (eq_failed != 0):
+        if (res["rc"] != 0) != (eq_failed != 0):
             P("equivalence-error-mismatch op=%s msg=%s" % (oc, first_error(res["err"])), "the single-simulation run %s while the equivalent sequence of single operations %s:\n%s" % (
                 "failed" if res["rc"] else "completed", "had %d failing runs" % eq_failed if eq_failed else "completed", res["err"][:400]))
         elif res["rc"] == 0:
-            cmp_a = {k: v for k, v in after.items() if not (k[0] == "solution" and k[1] in solo)}
-            cmp_b = {k: v for k, v in eq_final.items() if not (k[0] == "solution" and k[1] in solo)}
-            compare_stores(cmp_a, cmp_b, oc, "store after the operation vs after the equivalent sequence of single operations", P, RTOL_EQUIV)
+            compare_stores(after, eq_final, oc, "store after the operation vs after the equivalent sequence of single operations", P, RTOL_EQUIV)
             if o == "combo":
                 # the spelled-out side is observed after a component listing, which rewrites the -totals work space of
                 # KINETICS entries; the DUMP inside the simulation is written before any listing: compare without it
@@ -684,6 +690,16 @@ def step(live, op, store, meta, problems, diags):
                 eq_mid = {k: strip_kinetics_workspace(k, v) for k, v in eq_mid.items()}
                 compare_stores(mid, eq_mid, oc, "DUMP inside the simulation vs the state after the operations documented to precede DUMP", P, RTOL_EQUIV)
             if o == "run_cells":
+                cells = set(n for n in S.numbers(op["list"]) if n >= 0)
+                for k in sorted(store):
+                    if k[1] not in cells and after.get(k) != store[k]:
+                        P("untouched-entry-changed op=run_cells entry=%s" % k[0], "entry %s is not in a listed cell but %s" % (k, "vanished" if k not in after else "its content changed"))
+                        break
+                extra = sorted(k for k in after if k not in store and not (k[0] == "solution" and k[1] in cells and ("mix", k[1]) in store))
+                gone = sorted(k for k in store if k not in after)
+                if extra or gone:
+                    P("keys op=run_cells extra=%s missing=%s" % (",".join(sorted({k[0] for k in extra})), ",".join(sorted({k[0] for k in gone}))),
+                      "RUN_CELLS created %s / removed %s" % (extra, gone))
                 rows = res["sel"].get(1, [])
                 for n in S.numbers(op["list"]):
                     if n < 0 or S.spelled_out(set(store), n) is None:
